@@ -1,6 +1,9 @@
 (* Facts about the target language of the translator (Xlate/GoSem.v) used by the equivalence proofs. *)
 From Coq Require Import List NArith ZArith Bool Lia ZifyBool ZifyNat ZifyN.
 From TarsV Require Import Xlate.GoSem.
+(* every proof about translated code also depends on the translator's self-test: the translations of the sample
+   functions (harness/xlatesample) evaluate to what the compiled Go functions returned, on every run *)
+From TarsV Require Gen.TranslatedSelfTest.
 Import ListNotations.
 Open Scope Z_scope.
 
@@ -49,3 +52,36 @@ Lemma wrapS32_id z : -2147483648 <= z <= 2147483647 -> wrapS 32 z = z.
 Proof. intros H. apply wrapS_id; [lia|]. change (2 ^ (32 - 1)) with 2147483648. lia. Qed.
 Lemma wrapS64_id z : -9223372036854775808 <= z <= 9223372036854775807 -> wrapS 64 z = z.
 Proof. intros H. apply wrapS_id; [lia|]. change (2 ^ (64 - 1)) with 9223372036854775808. lia. Qed.
+
+(* indexing and slicing are the standard list functions *)
+Lemma go_drop_skipn {A} (l : list A) : forall n, 0 <= n -> go_drop l n = skipn (Z.to_nat n) l.
+Proof.
+  induction l as [|a l IH]; intros n Hn; cbn [go_drop]; [destruct (Z.to_nat n); reflexivity|].
+  destruct (n <=? 0) eqn:E.
+  - replace n with 0 by lia. reflexivity.
+  - rewrite IH by lia. replace (Z.to_nat n) with (S (Z.to_nat (n - 1))) by lia. reflexivity.
+Qed.
+Lemma go_take_firstn {A} (l : list A) : forall n, go_take l n = firstn (Z.to_nat n) l.
+Proof.
+  induction l as [|a l IH]; intros n; cbn [go_take]; [destruct (Z.to_nat n); reflexivity|].
+  destruct (n <=? 0) eqn:E.
+  - replace (Z.to_nat n) with O by lia. reflexivity.
+  - rewrite IH. replace (Z.to_nat n) with (S (Z.to_nat (n - 1))) by lia. reflexivity.
+Qed.
+Lemma go_slice_std {A} (l : list A) lo hi : 0 <= lo ->
+  go_slice l lo hi = firstn (Z.to_nat (hi - lo)) (skipn (Z.to_nat lo) l).
+Proof. intros H. unfold go_slice. rewrite go_take_firstn, go_drop_skipn by lia. reflexivity. Qed.
+Lemma go_nth_std {A} (l : list A) d : forall i, 0 <= i -> go_nth l i d = nth (Z.to_nat i) l d.
+Proof.
+  induction l as [|a l IH]; intros i Hi; cbn [go_nth]; [destruct (Z.to_nat i); reflexivity|].
+  destruct (i <=? 0) eqn:E.
+  - replace i with 0 by lia. reflexivity.
+  - rewrite IH by lia. replace (Z.to_nat i) with (S (Z.to_nat (i - 1))) by lia. reflexivity.
+Qed.
+
+(* the translator writes a && b, a || b as [if a then b else false], [if a then true else b] (so that evaluation skips
+   the right operand as Go does); for proofs these are andb / orb *)
+Ltac fold_bool := repeat match goal with
+  | |- context [if ?a then ?b else false] => change (if a then b else false) with (andb a b)
+  | |- context [if ?a then true else ?b] => change (if a then true else b) with (orb a b)
+  end.
